@@ -81,6 +81,7 @@ PEAK_COUNTERS = ('max_depth', 'max_nodes_in_tree')
 N_GRAMMARS = {'quick': 2080, 'thorough': 52000}
 INPUTS_PER = {'quick': 5, 'thorough': 5}
 TEXT_EVERY = 6
+GENPARSER_EVERY = 3
 
 
 def plan(tier, seed):
@@ -165,9 +166,10 @@ def check_grammar(acc, g, meta, inputs_fn, origin, prelude=None):
     text = M.typed_text(g, meta.get('styles'))
     chains = {k: tuple(v) for k, v in meta['chains'].items()}
     heads = {}
+    declared_specs = {r.name: M.rule_spec(r) for r in g.rules if M.rule_spec(r) is not None}
     for r in g.rules:
-        if r.params:
-            heads.setdefault(r.params[0].split('::')[0], []).append(r.name)
+        if r.name in declared_specs:
+            heads.setdefault(declared_specs[r.name].split('::')[0], []).append(r.name)
     shared_heads = {h for h, rs in heads.items() if len(rs) > 1}
 
     if prelude:
@@ -210,8 +212,26 @@ def check_grammar(acc, g, meta, inputs_fn, origin, prelude=None):
                       witness())
         return
     own_names = {r.name: {x.n for x in L.walk(r.body) if isinstance(x, (L.Named, L.NamedList))}
-                 for r in g.rules if r.params}
+                 for r in g.rules if r.name in declared_specs}
     tagsem = M.TagSemantics([r.name for r in g.rules])
+    for _, kind in meta.get('nontype', ()):
+        acc.count('nontype_param_rules:' + kind)
+
+    # the generated parser (sampled): built from the same model by the real code generator.  Its
+    # parses run BEFORE the model's so that the classes of this case are synthesized from what the
+    # generated parser passes to the semantics
+    gp_cls = None
+    if meta.setdefault('genparser', STATE.gcount % GENPARSER_EVERY == 1):
+        try:
+            from ..tsu import gen_parser
+            gp_cls = gen_parser(model)[0]
+        except Exception as e:  # noqa: BLE001 - translation faults are C02's subject
+            acc.count('genparser_build_failed')
+            acc.note(f'generated parser could not be built: {type(e).__name__}')
+        if gp_cls is not None:
+            acc.count('genparser_built')
+            gp_tagsem = M.TagSemantics([r.name for r in g.rules])
+            gp_sem = ModelBuilderSemantics()
 
     # the generated model module (once per grammar)
     mod = None
@@ -258,6 +278,7 @@ def check_grammar(acc, g, meta, inputs_fn, origin, prelude=None):
         if plain[0] == 'exc':
             acc.count('plain_parse_exception')
             continue
+        tagsem.hits.clear()
         tagged = outcome(lambda: model.parse(inp, start=start, semantics=tagsem))
         exact = True
         if plain[0] == 'ok':
@@ -268,10 +289,23 @@ def check_grammar(acc, g, meta, inputs_fn, origin, prelude=None):
             if not M.same_plain(M.erase(tagged[1]), plain[1]):
                 acc.count('flagged:tagged-differs-from-plain')
                 exact = False
+            for kind in tagsem.hits:   # the parse went through a rule whose parameters name no type
+                acc.count('nontype_param_parses:' + kind)
         else:
             acc.count('rejected')
 
-        routes = [('synth', lambda: model.parse(inp, start=start, semantics=synth_sem), None)]
+        routes = []
+        gp_tagged = None
+        if gp_cls is not None and plain[0] == 'ok':
+            # expected tree of the generated parser = its own tagged parse (differences between the two
+            # back-ends in VALUES are C02's subject); the annotation its actions receive is compared
+            # with the grammar's, i.e. with what the model route passes
+            gp_tagged = outcome(lambda: gp_cls().parse(inp, start=start, semantics=gp_tagsem))
+            if gp_tagged[0] == 'ok':
+                routes.append(('genparser', lambda: gp_cls().parse(inp, start=start, semantics=gp_sem), None))
+            else:
+                acc.count('genparser_outcome_differs_from_model')
+        routes.append(('synth', lambda: model.parse(inp, start=start, semantics=synth_sem), None))
         if mod_sem is not None:
             routes.append(('module', lambda: model.parse(inp, start=start, semantics=mod_sem), mod))
         if api_kind:
@@ -311,8 +345,15 @@ def check_grammar(acc, g, meta, inputs_fn, origin, prelude=None):
             mv = res[1]
             judge = M.Judge('module' if route == 'module' else 'synth', stale_names=stale, module=module,
                             own_names=own_names, shared_heads=shared_heads,
-                            conflict_heads=meta.get('conflict_heads', ()))
-            if exact:
+                            conflict_heads=meta.get('conflict_heads', ()),
+                            declared_specs=declared_specs if route == 'genparser' else None)
+            if route == 'genparser':
+                judge.corr(mv, gp_tagged[1])
+                acc.count('genparser_comparisons')
+                acc.count('genparser_nodes_judged', judge.ev.get('nodes_expected', 0))
+                acc.count('genparser_chains_judged', sum(v for k, v in judge.ev.items()
+                                                         if k.startswith('chain_len:') and k != 'chain_len:1'))
+            elif exact:
                 judge.corr(mv, tagged[1])
                 acc.count('exact_comparisons')
             reach = M.structure_check(judge, mv)
